@@ -70,7 +70,11 @@ func (g *mgen) newStruct() (string, []mvar, int) {
 			w = 8
 		}
 		total += w
-		f := mvar{name: fmt.Sprintf("f%d", i), typ: mtype{kind: 0, bits: w}}
+		kind := 0
+		if g.ch(3) == 0 {
+			kind = 1 // a signed member: its callers pass negative numbers
+		}
+		f := mvar{name: fmt.Sprintf("f%d", i), typ: mtype{kind: kind, bits: w}}
 		fields = append(fields, f)
 		fmt.Fprintf(&sb, "\t%s %s\n", f.name, f.typ)
 	}
